@@ -1180,6 +1180,20 @@ func runUnmarshalDiscipline(c *Ctx) {
 			}
 		}
 	}
+	// ... and nothing is answered without having decoded: every return with a nil error comes after the call
+	if unmarshal != nil {
+		early := ""
+		for _, blk := range pr.Blocks {
+			ret, isRet := blk.Instrs[len(blk.Instrs)-1].(*ssa.Return)
+			if !isRet || len(ret.Results) != 2 || !isNilConst(ret.Results[1]) {
+				continue
+			}
+			if !dominatesInstr(unmarshal, ret) {
+				early = p.ipos(ret)
+			}
+		}
+		c.Check(early == "", "UNMARSHAL", shortName(pr), "no answer without decoding", p.pos(pr.Pos()), "every return with a nil error is dominated by the call of proto.Unmarshal", "the return at "+early+" answers a message without an error before proto.Unmarshal has run: input that is not a feed message (an empty file) is reported as a feed")
+	}
 	c.Check(ok, "UNMARSHAL", shortName(pr), "a message that does not decode is an error", p.pos(pr.Pos()), "proto.Unmarshal's error leads to `return nil, err`", "ParseRealtime does not report a decoding failure as an error: corrupt files would be journaled as empty feeds")
 }
 
